@@ -248,7 +248,9 @@ class QConn:
         self.cur = []
         # coarse capture clocks: an answer may carry the same timestamp as the datagram it answers (opposite
         # direction only — datagrams of one direction are told apart by their timestamps, as the property says)
-        same_tick = self.items and getattr(self, "_last_dir", None) == (not from_server) and self.rng.random() < 0.08
+        same_tick = (self.items and getattr(self, "_last_dir", None) == (not from_server)
+                     and not getattr(self, "_tick_chain", False) and self.rng.random() < 0.08)
+        self._tick_chain = bool(same_tick)             # never three datagrams on one tick (two would share a direction)
         self.t += dt if dt is not None else (0 if same_tick else self.rng.randrange(200, 40_000))
         self._last_dir = bool(from_server)
         if from_server:
